@@ -436,7 +436,7 @@ def _choose_kinds(rng, count, kinds, probs, force=None):
 
 
 def gen_qp(rng, n=None, m=None, nonlin=False, var_force=None, row_force=None,
-           allow_fixed=True, kappa_max=100.0, family=None):
+           allow_fixed=True, kappa_max=100.0, family=None, row_scale_span=0.0):
     """Strictly convex QP around a feasible point; nonlin=True adds softplus terms and
     quadratic rows (smooth, finite everywhere, possibly nonconvex)."""
     if n is None:
@@ -514,6 +514,17 @@ def gen_qp(rng, n=None, m=None, nonlin=False, var_force=None, row_force=None,
             e[i] += 0.5 - cs[i]
     x0 = start_point(rng, lb, ub)
     fam = family or ("NLP" if nonlin else "QP-dense")
+    if row_scale_span and m:
+        # badly scaled rows: row i (function and bounds) multiplied by 10^U(-span, span); an own random stream, so that
+        # the instance is otherwise the one generated without the option
+        r2 = rng_for("rowscale", n, m, int(1000 * row_scale_span), int(abs(q[0]) * 1e6) if n else 0)
+        f = 10.0 ** r2.uniform(-row_scale_span, row_scale_span, size=m)
+        A = A * f[:, None]
+        e = e * f
+        l = l * f
+        u = u * f
+        if B is not None:
+            B = [None if b is None else b * f[i] for i, b in enumerate(B)]
     return Spec(Q, q, A, e, lb, ub, l, u, sp_a, sp_W, B, x0=x0,
                 meta={"family": fam, "xs": xs, "zero_lb": [int(j) for j in np.where(zero_lb)[0]]})
 
